@@ -305,7 +305,13 @@ def altsplice_cases(ctx, n, la_other):
     rng = ctx.rng
     out = []
     for i in range(n):
-        c = CG2.gen_as_case(rng, nvar=rng.choice([0, 1, 2, 2, 3, 3, 4] if ctx.quick else [0, 1, 2, 3, 3, 4, 5]))
+        # 3/4 random geometry; 1/4 designed (round-3 seeds C02-8, C01-7): a record straddling / abutting an end of the
+        # donor window (it cannot be applied to the inserted piece), a frameshift inside the donor + a record behind the event
+        x = rng.random()
+        if x < 0.75:
+            c = CG2.gen_as_case(rng, nvar=rng.choice([0, 1, 2, 2, 3, 3, 4] if ctx.quick else [0, 1, 2, 3, 3, 4, 5]))
+        else:
+            c = CG2.gen_as_design_case(rng, 'straddle' if x < 0.9 else ('abut' if x < 0.95 else 'shift'))
         c['runs'] = [limited(rng, CG.gen_run(rng, rule='trypsin' if rng.random() < 0.7 else la_other[i % len(la_other)], exc_on=False))]
         c['stream'] = 'altsplice'
         out.append(c)
@@ -316,7 +322,10 @@ def circ_cases(ctx, n, la_other):
     rng = ctx.rng
     out = []
     for i in range(n):
-        c = CG2.gen_circ_case(rng)
+        # 3/5 random circles; 2/5 designed (round-3 seeds C02-7, C05-6): the only ATG of the circle behind a K/R codon
+        # with an SNV on one of its bases, two alleles at one site, ORFs that pass the site in every turn
+        x = rng.random()
+        c = CG2.gen_circ_case(rng) if x < 0.6 else CG2.gen_circ_design_case(rng, 'onlyatg' if x < 0.9 else 'starts')
         c['runs'] = [limited(rng, CG.gen_run(rng, rule='trypsin' if rng.random() < 0.7 else la_other[i % len(la_other)], exc_on=False))]
         c['stream'] = 'circ'
         out.append(c)
